@@ -980,6 +980,49 @@ fn verif_lms_verify_ref_free() {
 }
 
 // ------------------------------------------------------------------------
+// H4a: ots_verify == RFC 8554 Algorithm 4b for ALL LM-OTS signature strings of
+// the right length, any q: u32 (the type word decides acceptance; the
+// candidate key must agree lane by lane)
+
+#[kani::proof]
+#[kani::unwind(256)]
+#[kani::stub(Hn, hn_ff)]
+#[kani::stub(Hnx, hnx_lean)]
+#[kani::stub(ref_chain, ref_chain_fast)]
+fn verif_lms_ots_verify_ref_cff() {
+    let pk = PublicKey { I: kani::any(), T1: kani::any() };
+    let q: u32 = kani::any();
+    let osig: [u8; ots_siglen] = kani::any();
+    let msg: [u8; 3] = kani::any();
+    let got = pk.ots_verify(q, &osig, &msg);
+    let exp = ref_ots_kc(&pk.I, q, &osig, &msg);
+    match (got, exp) {
+        (None, None) => {
+            kani::cover!(ref_strtou32(&osig, 0) == (EXP_OTS_TYPE ^ 0x0100_0000));
+        }
+        (Some(x), Some(y)) => {
+            let xl = lanes_n(&x);
+            let yl = lanes_n(&y);
+            let mut u = 0usize;
+            while u < LN {
+                assert!(xl[u] == yl[u]);
+                u += 1;
+            }
+            kani::cover!(x[0] == 0x42);
+        }
+        _ => {
+            assert!(false);
+        }
+    }
+    // wrong lengths are rejected
+    let short: [u8; ots_siglen - 1] = kani::any();
+    let long: [u8; ots_siglen + 1] = kani::any();
+    assert!(pk.ots_verify(q, &short, &msg).is_none());
+    assert!(pk.ots_verify(q, &long, &msg).is_none());
+    assert!(pk.ots_verify(q, &osig[..3], &msg).is_none());
+}
+
+// ------------------------------------------------------------------------
 // H4b: the LMS layer of verify (everything around ots_verify) against RFC 8554
 // Algorithm 6/6a for ALL signature strings, with the LM-OTS layer replaced on
 // BOTH sides by the same deterministic stand-in (its contract: None iff the
